@@ -43,7 +43,7 @@ var FnNames = map[int]string{1: "CalcSwapResult", 2: "SwapOne", 3: "CalculatePoo
 	6: "ConvUnitsToWBasisPoints", 7: "ConvWBasisPointsToUnits", 8: "CalculateDiscountedSentAmount", 9: "CalculateExternalSwapAmountAsymmetric",
 	10: "CalculateNativeSwapAmountAsymmetric", 11: "CalcProviderDistributionAmount"}
 
-func u(x *big.Int) sdk.Uint { return sdk.NewUintFromBigInt(x) }
+func u(x *big.Int) sdk.Uint  { return sdk.NewUintFromBigInt(x) }
 func dec(x *big.Int) sdk.Dec { return sdk.NewDecFromBigIntWithPrec(x, 18) }
 func ub(x sdk.Uint) *big.Int { return new(big.Int).Set(x.BigInt()) }
 
